@@ -157,8 +157,32 @@ Proof.
 Qed.
 Print Assumptions C14_accessor_total_decodable.
 
-(* the builders never panic on any selector / version when the key has two primes and a valid point
-   (consequence of the round trip: they return Ok); the panic points of the model are real: *)
+(* Where a builder can panic, for ANY selector, version and key: only on an RSA private key with
+   fewer than two primes (key.Primes[1]) or inside Go's crypto; the panic("Unexpected key format")
+   defaults are unreachable. *)
+Theorem C14_build_panic_only_if : forall (C : crypto) (kf : Z) (ver : Z * Z) (usage : Z) (i : reg_input),
+  build C kf ver usage i = Panic ->
+  match i with
+  | RegRsaPriv k => (length (rk_primes k) < 2)%nat \/ marshal_pkcs8 C (PrivRsa k) = Panic
+  | RegEcPriv k => marshal_pkcs8 C (PrivEc k) = Panic
+  | RegEcPub k => ec_marshal C (ep_curve k) (ep_x k) (ep_y k) = None
+  | _ => False
+  end.
+Proof. exact build_panic_only_if. Qed.
+Print Assumptions C14_build_panic_only_if.
+
+(* the DER entry points (Pkcs1PrivateKey, Pkcs1PublicKey, Sec1PrivateKey) register the key they parse *)
+Theorem C14_der_entry_points : forall C vrsa vrsapub vec vecpub, crypto_laws C vrsa vrsapub vec vecpub ->
+  (forall kf usage k, vrsa k ->
+     reg_pkcs1_priv_der C kf usage (marshal_pkcs1_priv C k) = reg_rsa_priv C kf usage (precompute C k))
+  /\ (forall kf usage k, vrsapub k ->
+     reg_pkcs1_pub_der C kf usage (marshal_pkcs1_pub C k) = reg_rsa_pub C kf usage k)
+  /\ (forall kf ver usage k b, vec k -> marshal_sec1 C k = Some b -> parse_sec1 C b = Some k ->
+     reg_sec1_der C kf ver usage b = reg_ec_priv C kf ver usage k).
+Proof. exact der_entry_points. Qed.
+Print Assumptions C14_der_entry_points.
+
+(* the panic point of the model is real: *)
 Example C14_builder_panic_points : forall C : crypto,
   reg_rsa_priv C KF_Transparent 0 (mk_rsa_priv 15 3 3 [Some 3] None None None) = Panic.
 Proof. intros C. reflexivity. Qed.
